@@ -5,8 +5,8 @@
 using namespace v; using namespace vo;
 template <typename T> static rc::Gen<T> UNI(T lo, T hi) { return rc::gen::resize(100, rc::gen::inRange<T>(lo, hi)); }
 
-enum { P_CSET, P_CDEL, P_CCLEAR, P_HSET, P_HDEL, P_HCLEAR, P_CJSON, P_HJSON, P_N };
-static const char *PN[] = {"claim_set", "claim_del", "claim_del_all", "header_set", "header_del", "header_del_all", "claims_json_replace", "headers_json_replace"};
+enum { P_CSET, P_CDEL, P_CCLEAR, P_HSET, P_HDEL, P_HCLEAR, P_CJSON, P_HJSON, P_CGET, P_HGET, P_N };   // appended: typed reads (of the right and of the wrong type, of absent members)
+static const char *PN[] = {"claim_set", "claim_del", "claim_del_all", "header_set", "header_del", "header_del_all", "claims_json_replace", "headers_json_replace", "claim_get", "header_get"};
 struct POp { int k, a, b; };
 static const char *NAMES[] = {"exp", "nbf", "iss", "sub", "aud", "alg", "typ", "zz"};
 static const long NOW = 1700000000;
@@ -26,6 +26,7 @@ static int mut_cb(jwt_t *jwt, jwt_config_t *) {
     case P_CSET: jwt_claim_set(jwt, &v); break; case P_CDEL: jwt_claim_del(jwt, n); break; case P_CCLEAR: jwt_claim_del(jwt, NULL); break;
     case P_HSET: jwt_header_set(jwt, &v); break; case P_HDEL: jwt_header_del(jwt, n); break; case P_HCLEAR: jwt_header_del(jwt, NULL); break;
     case P_CJSON: { jwt_claim_del(jwt, NULL); jwt_value_t w = val_json(NULL, WHOLE[o.b % 5], 1); jwt_claim_set(jwt, &w); break; }
+    case P_CGET: case P_HGET: { jwt_value_type_t ty = (jwt_value_type_t)(1 + o.b % 4); jwt_value_t g = val_get(ty, (o.b % 11 == 10) ? NULL : n); if ((o.k % P_N) == P_CGET) jwt_claim_get(jwt, &g); else jwt_header_get(jwt, &g); if (ty == JWT_VALUE_JSON && g.json_val) free(g.json_val); break; }
     case P_HJSON: { jwt_header_del(jwt, NULL); jwt_value_t w = val_json(NULL, WHOLE[o.b % 5], 1); jwt_header_set(jwt, &w); break; }
     }
   }
@@ -98,12 +99,28 @@ static std::string run_case(const Case &x, bool *nt = nullptr, int *v0out = null
 // changes only the alg; mode 2: setkey(none, other key) first, the callback replaces only the key (alg untouched)
 struct SelCtx { const jwk_item_t *key; jwt_alg_t alg; int mode; };
 static int sel_cb(jwt_t *, jwt_config_t *c) { SelCtx *s = (SelCtx *)c->ctx; if (s->mode != 1) c->key = s->key; if (s->mode != 2) c->alg = s->alg; return 0; }
+// keys of the select grid: the shared key table, then keys whose JWK carries use / key_ops members in every combination (whatever role
+// those members play in admission, it must be the same for setkey and for a key the callback selects)
+struct SelKey { const jwk_item_t *item; const KeySpec *k; jwt_alg_t attr_alg; };
+static std::vector<std::unique_ptr<LKey>> &EXTRA = *new std::vector<std::unique_ptr<LKey>>; static std::vector<SelKey> &EXTRA_K = *new std::vector<SelKey>;
+static void init_extra() {
+  if (!EXTRA.empty()) return;
+  struct UO { const char *key; const char *alg; const char *use; const char *ops; bool priv; };
+  static const UO uo[] = {{"oct64", "HS256", "enc", "", true}, {"oct64", "", "enc", "[\"encrypt\",\"decrypt\"]", true}, {"ec_p256", "ES256", "enc", "", false}, {"ec_p256", "ES256", "sig", "[\"verify\"]", false},
+                          {"ec_p256", "", "enc", "[\"verify\"]", false}, {"rsa_2048", "RS256", "enc", "[\"wrapKey\",\"unwrapKey\"]", false}, {"rsa_2048", "PS256", "sig", "[\"sign\"]", false}, {"ed25519", "EdDSA", "", "[\"deriveKey\",\"deriveBits\"]", false},
+                          {"oct64", "HS512", "sig", "[\"sign\",\"verify\"]", true}, {"ec_p256", "ES256", "enc", "[\"encrypt\"]", true}};
+  for (auto &u : uo) { const KeySpec &k = vo::pool().get(u.key); JwkOpts o; o.priv = u.priv || k.kind == K_OCT; o.alg = u.alg; o.use = u.use; o.key_ops = u.ops;
+    auto lk = std::make_unique<LKey>(jwk_json(k, o)); if (!lk->item) continue; EXTRA_K.push_back({lk->item, &k, *u.alg ? jwt_str_alg(u.alg) : JWT_ALG_NONE}); EXTRA.push_back(std::move(lk)); }
+}
+static int n_sel_keys() { init_extra(); return (int)keytab().size() + (int)EXTRA_K.size(); }
+static SelKey sel_key(int key) { init_extra(); if (key < (int)keytab().size()) return {keytab()[key].lk->item, keytab()[key].k, keytab()[key].attr_alg}; return EXTRA_K[key - keytab().size()]; }
 static std::string run_select(int prov, int key, int algi, int tokkind, std::string *desc, int mode = 0) {
   set_provider(prov); set_now(NOW);
-  const jwk_item_t *item = key < 0 ? nullptr : keytab()[key].lk->item; jwt_alg_t alg = ALGCH[algi % NALGCH];
+  SelKey sk = key < 0 ? SelKey{nullptr, nullptr, JWT_ALG_NONE} : sel_key(key);
+  const jwk_item_t *item = sk.item; jwt_alg_t alg = ALGCH[algi % NALGCH];
   // token: signed by that key with alg (if possible), or by HS256/oct64, or none
   std::string tok;
-  if (tokkind == 0 && key >= 0) { jwt_alg_t ta = alg != JWT_ALG_NONE ? alg : keytab()[key].attr_alg; if (ta == JWT_ALG_NONE || ta >= JWT_ALG_INVAL) ta = JWT_ALG_HS256; tok = ref_token(*keytab()[key].k, ta, std::string("{\"alg\":\"") + jwt_alg_str(ta) + "\"}", "{}"); }
+  if (tokkind == 0 && key >= 0) { jwt_alg_t ta = alg != JWT_ALG_NONE ? alg : sk.attr_alg; if (ta == JWT_ALG_NONE || ta >= JWT_ALG_INVAL) ta = JWT_ALG_HS256; tok = ref_token(*sk.k, ta, std::string("{\"alg\":\"") + jwt_alg_str(ta) + "\"}", "{}"); }
   else if (tokkind == 1) tok = ref_token(*keytab()[0].k, JWT_ALG_HS256, "{\"alg\":\"HS256\"}", "{}");
   else tok = ref_token(*keytab()[0].k, JWT_ALG_NONE, "{\"alg\":\"none\"}", "{}");
   if (tok.find("..") != std::string::npos && tokkind == 0) tok = ref_token(*keytab()[0].k, JWT_ALG_NONE, "{\"alg\":\"none\"}", "{}");
@@ -139,7 +156,7 @@ int main(int argc, char **argv) {
   }
   // (3) exhaustive small grid: callback-selected (alg,key) vs setkey
   { int idx = 0;
-    for (int prov = 0; prov < 2; prov++) for (int key = -1; key < (int)keytab().size(); key++) for (int algi = 0; algi < NALGCH; algi++) for (int tk = 0; tk < 3; tk++) for (int mode = 0; mode < 3; mode++) {
+    for (int prov = 0; prov < 2; prov++) for (int key = -1; key < n_sel_keys(); key++) for (int algi = 0; algi < NALGCH; algi++) for (int tk = 0; tk < 3; tk++) for (int mode = 0; mode < 3; mode++) {
       if ((idx++ % a.nworkers) != a.worker) continue;
       std::string d, r = run_select(prov, key, algi, tk, &d, mode); st.evaluations++; st.cls("select-cells"); st.nontrivial_distinct();
       if (!r.empty()) st.violation("C19:" + r, "a key/alg selected by the callback is not treated like the same pair given to setkey", d);
